@@ -32,7 +32,7 @@ static const char* linkedBuf(Ctx& c, const std::string& s) {
 // kind 7 = mixed: every operation takes its string operands through a kind chosen from the operation counter
 static int effKind(const Ctx& c) { return c.kind == 7 ? int(c.curAlias % 7) : c.kind; }
 // store string s (value) into variant v using the configured source kind; returns set()'s result
-template <class V> static bool setString(Ctx& c, V v, const std::string& s) {
+template <class V> static bool setString(Ctx& c, V&& v, const std::string& s) {
   bool hasNul = s.find('\0') != std::string::npos;
   if (c.kind == 7 && !hasNul) {
     // mixed mode: first store the SAME text through the opposite storage (linked <-> copied), then through the kind
@@ -83,7 +83,7 @@ template <class F> static auto withKey(Ctx& c, const std::string& k, F f) {
   }
 }
 
-template <class V> static bool setScalar(Ctx& c, V v, const std::string& d) {
+template <class V> static bool setScalar(Ctx& c, V&& v, const std::string& d) {
   if (d == "n") return v.set(nullptr);
   if (d == "t") return v.set(true);
   if (d == "f") return v.set(false);
@@ -132,7 +132,12 @@ static std::string runOp(Ctx& c, const std::vector<std::string>& a) {
   const std::string& op = a[0];
   size_t alias = c.opcount++;   // selects among equivalent API entry points (see rmidx / rmkey / getelem / getmember)
   c.curAlias = alias;
-  c.creatingKey = (op == "makemember" || op == "setmember");
+  c.creatingKey = (op == "makemember" || op == "setmember" || op == "chainset");
+  // a handle that is the root of a document is reached through the JsonDocument's own member functions half of the time
+  // (JsonDocument repeats the JsonVariant interface with its own overloads and proxy types)
+  size_t h1 = (a.size() > 1 && !a[1].empty() && isdigit((unsigned char)a[1][0])) ? std::stoul(a[1]) : size_t(-1);
+  bool viaDoc = h1 < c.docs.size() && ((alias >> 1) & 1);
+  auto target = [&](auto f) { if (viaDoc) return f(*c.docs[h1]); JsonVariant v = H(a[1]); return f(v); };
   // JsonString::isLinked() reports the storage on purpose: a value set from a const char* is linked, from any other
   // kind it is a copy; an assignment keeps the source's storage
   auto linkOk = [&](JsonVariantConst v, const std::string& d) -> bool {
@@ -150,22 +155,30 @@ static std::string runOp(Ctx& c, const std::vector<std::string>& a) {
     std::string k0 = firstKey ? unhex(path[0].substr(1)) : std::string();
     size_t i0 = firstKey ? 0 : std::stoul(path[0].substr(1));
     if (op == "chainset") {
+      // the first proxy refers to the document itself; its key comes as const char* (linked), char* (copied) or std::string
+      bool hasNul0 = k0.find('\0') != std::string::npos;
+      int kk0 = hasNul0 ? 0 : effKind(c);
+      std::vector<char> kbuf(k0.begin(), k0.end()); kbuf.push_back(0);
       bool r = !fromDoc ? chainSet<0>(c, H(a[1]), path, 0, a[3])
-               : firstKey ? chainSet<1>(c, d0[k0], path, 1, a[3]) : chainSet<1>(c, d0[i0], path, 1, a[3]);   // the first proxy refers to the document itself
+               : !firstKey ? chainSet<1>(c, d0[i0], path, 1, a[3])
+               : kk0 == 1 ? chainSet<1>(c, d0[linkedBuf(c, k0)], path, 1, a[3])
+               : kk0 == 2 ? chainSet<1>(c, d0[(char*)kbuf.data()], path, 1, a[3])
+                          : chainSet<1>(c, d0[k0], path, 1, a[3]);
+      std::fill(kbuf.begin(), kbuf.end(), 'Z');
       return r ? "true" : "false";
     }
     JsonVariant v = !fromDoc ? chainGet<0>(H(a[1]), path, 0) : firstKey ? chainGet<1>(d0[k0], path, 1) : chainGet<1>(d0[i0], path, 1);
     return bindRes(a[3], v);
   }
-  if (op == "set") { bool r = setScalar(c, H(a[1]), a[2]); return r ? (linkOk(H(a[1]), a[2]) ? "true" : "true!LINK") : "false"; }
-  if (op == "toarr") { H(a[1]).to<JsonArray>(); return "-"; }
-  if (op == "toobj") { H(a[1]).to<JsonObject>(); return "-"; }
+  if (op == "set") { bool r = target([&](auto& t) { return setScalar(c, t, a[2]); }); return r ? (linkOk(H(a[1]), a[2]) ? "true" : "true!LINK") : "false"; }
+  if (op == "toarr") { target([&](auto& t) { t.template to<JsonArray>(); return 0; }); return "-"; }
+  if (op == "toobj") { target([&](auto& t) { t.template to<JsonObject>(); return 0; }); return "-"; }
   if (op == "clear") { H(a[1]).clear(); return "-"; }
-  if (op == "addnew") return bindRes(a[2], H(a[1]).add<JsonVariant>());
+  if (op == "addnew") return bindRes(a[2], target([&](auto& t) { return t.template add<JsonVariant>(); }));
   if (op == "addval") {
     // add(value): through a temporary document for non-string scalars is not the same API; call add() directly
-    JsonVariant r = H(a[1]);
     const std::string& d = a[2];
+    bool ok = target([&](auto& r) -> bool {
     bool ok;
     if (d == "n") ok = r.add(nullptr);
     else if (d == "t") ok = r.add(true);
@@ -175,30 +188,33 @@ static std::string runOp(Ctx& c, const std::vector<std::string>& a) {
     else if (d[0] == 'D') { uint64_t b = (uint64_t)std::stoull(d.substr(1), nullptr, 16); double f; memcpy(&f, &b, 8); ok = r.add(f); }
     else if (d[0] == 's') { std::string s = unhex(d.substr(1)); ok = withKey(c, s, [&](auto k) { return r.add(k); }); }
     else { ok = r.add(serialized(unhex(d.substr(1)))); }
+    return ok; });
     return ok ? "true" : "false";
   }
   if (op == "getelem") {
     JsonVariant h = H(a[1]);
     size_t idx = std::stoul(a[2]);
+    if (viaDoc) return bindRes(a[3], JsonVariant((*c.docs[h1])[idx]));
     if (h.is<JsonArray>() && (alias & 1)) return bindRes(a[3], JsonVariant(h.as<JsonArray>()[idx]));
     return bindRes(a[3], JsonVariant(h[idx]));
   }
-  if (op == "makeelem") return bindRes(a[3], H(a[1])[(size_t)std::stoul(a[2])].to<JsonVariant>());
+  if (op == "makeelem") return bindRes(a[3], target([&](auto& t) { return t[(size_t)std::stoul(a[2])].template to<JsonVariant>(); }));
   if (op == "setelem") {   // r[i] = x
     size_t idx = std::stoul(a[2]);
-    bool r = setScalar(c, H(a[1])[idx], a[3]);
+    bool r = target([&](auto& t) { return setScalar(c, t[idx], a[3]); });
     return r ? (linkOk(JsonVariantConst(H(a[1]))[idx], a[3]) ? "true" : "true!LINK") : "false";
   }
   if (op == "getmember") {
     std::string k = unhex(a[2]);
     JsonVariant h = H(a[1]);
+    if (viaDoc) return bindRes(a[3], withKey(c, k, [&](auto kk) { return JsonVariant((*c.docs[h1])[kk]); }));
     if (h.is<JsonObject>() && (alias & 1)) return bindRes(a[3], withKey(c, k, [&](auto kk) { return JsonVariant(h.as<JsonObject>()[kk]); }));
     return bindRes(a[3], withKey(c, k, [&](auto kk) { return JsonVariant(h[kk]); }));
   }
-  if (op == "makemember") { std::string k = unhex(a[2]); return bindRes(a[3], withKey(c, k, [&](auto kk) { return H(a[1])[kk].template to<JsonVariant>(); })); }
+  if (op == "makemember") { std::string k = unhex(a[2]); return bindRes(a[3], withKey(c, k, [&](auto kk) { return target([&](auto& t) { return t[kk].template to<JsonVariant>(); }); })); }
   if (op == "setmember") {   // r[k] = x
     std::string k = unhex(a[2]);
-    bool r = withKey(c, k, [&](auto kk) { return setScalar(c, H(a[1])[kk], a[3]); });
+    bool r = withKey(c, k, [&](auto kk) { return target([&](auto& t) { return setScalar(c, t[kk], a[3]); }); });
     return r ? (linkOk(JsonVariantConst(H(a[1]))[k], a[3]) ? "true" : "true!LINK") : "false";
   }
   // the same operation is reached through different entry points of the API (variant, typed reference, iterator),
@@ -206,7 +222,8 @@ static std::string runOp(Ctx& c, const std::vector<std::string>& a) {
   if (op == "rmidx") {
     size_t idx = std::stoul(a[2]);
     JsonVariant h = H(a[1]);
-    if (h.is<JsonArray>() && alias % 3 == 1) h.as<JsonArray>().remove(idx);
+    if (viaDoc) c.docs[h1]->remove(idx);
+    else if (h.is<JsonArray>() && alias % 3 == 1) h.as<JsonArray>().remove(idx);
     else if (h.is<JsonArray>() && alias % 3 == 2) {
       JsonArray arr = h.as<JsonArray>();
       JsonArray::iterator it = arr.begin();
@@ -218,7 +235,8 @@ static std::string runOp(Ctx& c, const std::vector<std::string>& a) {
   if (op == "rmkey") {
     std::string k = unhex(a[2]);
     JsonVariant h = H(a[1]);
-    if (h.is<JsonObject>() && alias % 3 == 1) withKey(c, k, [&](auto kk) { h.as<JsonObject>().remove(kk); return 0; });
+    if (viaDoc) withKey(c, k, [&](auto kk) { c.docs[h1]->remove(kk); return 0; });
+    else if (h.is<JsonObject>() && alias % 3 == 1) withKey(c, k, [&](auto kk) { h.as<JsonObject>().remove(kk); return 0; });
     else if (h.is<JsonObject>() && alias % 3 == 2) {
       JsonObject obj = h.as<JsonObject>();
       for (JsonObject::iterator it = obj.begin(); it != obj.end(); ++it)
